@@ -173,7 +173,7 @@ def _pot_transform_hook():
     return hook
 
 
-@contract(CellConversion.cell_transform, props=['C05', 'C04'], name='CellConversion.cell_transform')
+@contract(CellConversion.cell_transform, props=['C05', 'C04', 'C06'], name='CellConversion.cell_transform')
 class _CellTransform:
     """Cache protocol.  Sequences of two calls cover hit / miss / different transformation / different cell /
     cache=False; the second result is the first one exactly when cell and transformation are the same and both calls
@@ -185,7 +185,10 @@ class _CellTransform:
     def cases(S):
         for label, second in (('same-cell-same-transformation', (10, T_A, True)), ('same-cell-other-transformation', (10, T_B, True)),
                               ('other-cell-same-transformation', (11, T_A, True)), ('same-but-uncached', (10, T_A, False)),
-                              ('empty-transformation', (10, (), True))):
+                              ('empty-transformation', (10, (), True)),
+                              # an identity transformation still yields a fresh cell: develop_lattice modifies the cell
+                              # it gets back for the element (0, 0, 0) and then deletes the lattice cell
+                              ('identity-transformation', (10, T_IDENT, True)), ('identity-uncached', (10, T_IDENT, False))):
             for first_cache in (True, False):
                 yield f'{label}/first-cached={int(first_cache)}', {'second': second, 'first_cache': first_cache}
 
@@ -219,6 +222,182 @@ class _CellTransform:
                 isinstance(g2, Opaque) and g2.facts.get('transformed') is src and g2.facts.get('by') == tuple(second[1]))
             yield 'material-of-the-requested-cell', dic[k2].materialID == dic[second[0]].materialID
         yield 'originals-untouched', dic[10].geometry is g10 and dic[11].geometry is g11
+
+
+# ------------------------------------------------------------------ pot_transform (structural induction, callees by contract)
+
+from MIP.geom.semantics import Surface as _Surface
+from t4_geom_convert.Kernel.Volume import CellConversion as _CCMOD
+from t4_geom_convert.Kernel.Surface.CollectionDict import CollectionDict as _CollectionDict
+from t4_geom_convert.Kernel.Surface.SurfaceCollection import SurfaceCollection as _SurfaceCollection
+
+
+class _Tok:
+    """Opaque MCNP facet / T4 surface object; `made` records how a callee (by contract) produced it."""
+    def __init__(self, name, made=None):
+        self.name, self.made, self.idorigin = name, made, ()
+
+    def __repr__(self):
+        return f'<{self.name}>'
+
+
+class _Coll:
+    def __init__(self, surfs, made):
+        self.surfs, self.made = surfs, made
+
+
+def _ih_pot_transform(it, f, args, kw):
+    """Induction hypothesis on an opaque sub-tree: it comes back as `the same tree moved by p_transf`."""
+    tree, tr = args[1], args[2]
+    if isinstance(tree, Opaque) and tr:
+        return OpaqueNode(transformed=tree, by=tuple(tr))
+    return NotImplemented
+
+
+def _pt_hooks():
+    def transformation(it, f, args, kw):
+        tr, obj = args[0], args[1]
+        res = _Tok('moved ' + obj.name, ('transformation', tuple(tr), obj))
+        it.p.calls.append({'callee': 'transformation', 'args': [tuple(tr), obj], 'kw': {}, 'result': res})
+        return res
+
+    def conversion(it, f, args, kw):
+        key, obj = args[0], args[1]
+        main = _Tok('t4 of ' + obj.name, ('conversion', key, obj))
+        aux = _Tok('aux t4 of ' + obj.name, ('conversion-aux', key, obj))
+        res = _Coll([(main, 1), (aux, -1)], ('conversion', key, obj))
+        it.p.calls.append({'callee': 'conversion_surface_params', 'args': [key, obj], 'kw': {}, 'result': res})
+        return res
+
+    def join(it, f, args, kw):
+        colls = list(args[-1])
+        surfs = [(s, side * cside) for coll, cside in colls for s, side in coll.surfs]
+        res = _Coll(surfs, ('join', [(c, sd) for c, sd in colls]))
+        it.p.calls.append({'callee': 'join', 'args': [colls], 'kw': {}, 'result': res})
+        return res
+
+    def cell_tr(it, f, args, kw):
+        conv, cell_key, transform = args[0], args[1], args[2]
+        conv.new_cell_key += 1
+        it.p.calls.append({'callee': 'cell_transform', 'args': [cell_key, tuple(transform)], 'kw': dict(kw),
+                           'result': conv.new_cell_key})
+        return conv.new_cell_key
+    return {CellConversion.pot_transform: _ih_pot_transform, _CCMOD.transformation: transformation,
+            _CCMOD.conversion_surface_params: conversion, _SurfaceCollection.join.__func__: join,
+            CellConversion.cell_transform: cell_tr}
+
+
+@contract(CellConversion.pot_transform, props=['C05', 'C04', 'C01', 'C03'], name='CellConversion.pot_transform')
+class _PotTransform:
+    """Moving a tree by a transformation, by structural induction (opaque sub-trees: depth unbounded):
+    operator nodes keep their operator and get their operands moved, in order; a surface reference (whole surface or a
+    single macrobody facet, either sense) becomes a reference with the same sense to a fresh surface number whose MCNP
+    facets are exactly transformation(p_transf, facet) of the referenced facets, same sides, same order, and whose T4
+    collection is the join of the conversions of those moved facets; a cell reference becomes a reference to
+    cell_transform(cell, p_transf) (cached); `#n` nodes are left alone (documented convention: complements are not
+    moved); an empty transformation returns the tree itself; entries of the surface dictionaries that existed before
+    are not touched.  transformation(), conversion_surface_params(), SurfaceCollection.join and cell_transform are
+    replaced by their contracts (C04, C02, C02, C05)."""
+    native = False
+    hooks = _pt_hooks()
+
+    def cases(S):
+        for sense in (1, -1):
+            yield f'surface/sense={sense:+d}', {'tree': _Surface(5 * sense), 'tr': T_A}
+            yield f'facet-of-a-macrobody/sense={sense:+d}', {'tree': _Surface(6 * sense, 2), 'tr': T_A}
+            yield f'whole-macrobody/sense={sense:+d}', {'tree': _Surface(6 * sense), 'tr': T_A}
+        yield 'cell-reference', {'tree': CellRef(31), 'tr': T_A}
+        yield 'cell-complement-node', {'tree': ('^', '7'), 'tr': T_A}
+        yield 'empty-transformation', {'tree': ('*', _Surface(5), _Surface(-6)), 'tr': ()}
+        for op in ('*', ':'):
+            for ln, lmk in (('surface', lambda: _Surface(-5)), ('subtree', lambda: OpaqueNode(tag='L')), ('cellref', lambda: CellRef(31))):
+                for rn, rmk in (('surface', lambda: _Surface(6, 1)), ('subtree', lambda: OpaqueNode(tag='R'))):
+                    yield f'{op}:{ln},{rn}', {'tree': (op, lmk(), rmk()), 'tr': T_B}
+
+        yield ':three-operands', {'tree': (':', OpaqueNode(tag='A'), _Surface(5), OpaqueNode(tag='B')), 'tr': T_B}
+        # the same macrobody referenced twice, as a whole and through facets (a result may be shared only between
+        # references that designate the same facets)
+        yield '*:whole-macrobody,facet-of-the-same', {'tree': ('*', _Surface(-6), _Surface(6, 2)), 'tr': T_A}
+        yield ':two-facets-of-one-macrobody', {'tree': (':', _Surface(6, 1), _Surface(-6, 3)), 'tr': T_A}
+        yield '*:the-same-facet-twice', {'tree': ('*', _Surface(6, 2), _Surface(-6, 2)), 'tr': T_A}
+        # ... and in two successive calls on the same converter (cells of one universe moved one after the other)
+        yield 'second-call:facet-after-whole-macrobody', {'tree': _Surface(6, 1), 'tr': T_A, 'first': _Surface(-6)}
+        yield 'second-call:whole-macrobody-after-facet', {'tree': _Surface(6), 'tr': T_A, 'first': _Surface(6, 3)}
+        yield 'second-call:same-surface-other-transformation', {'tree': _Surface(5), 'tr': T_B, 'first': _Surface(5), 'first_tr': T_A}
+
+    def call(tree, tr, first=None, first_tr=None):
+        d = _CollectionDict()
+        f5, f6a, f6b, f6c = _Tok('facet5'), _Tok('facet6.1'), _Tok('facet6.2'), _Tok('facet6.3')
+        d[5] = [(f5, 1)]
+        d[6] = [(f6a, -1), (f6b, 1), (f6c, -1)]
+        t4 = {5: 'T4-5', 6: 'T4-6'}
+        conv = new_conv(cells={31: _cell('1', '-1.0', OpaqueNode(tag='g31'), 3, None)}, surf_t4=t4, surf_mcnp=d,
+                        cell_key=100, surf_key=200)
+        if first is not None:
+            conv.pot_transform(first, list(first_tr or tr))
+        res = conv.pot_transform(tree, list(tr) if tr else tr)
+        return res, conv, {5: [(f5, 1)], 6: [(f6a, -1), (f6b, 1), (f6c, -1)]}
+
+    def ensures(result, tree, tr, calls, first=None, first_tr=None):
+        res, conv, before = result
+        dm, dt = conv.dic_surf_mcnp, conv.dic_surf_t4
+        yield 'old-mcnp-entries-untouched', all(len(dm[k]) == len(v) and all(a[0] is b[0] and a[1] == b[1] for a, b in zip(dm[k], v))
+                                                for k, v in before.items())
+        yield 'old-t4-entries-untouched', dt[5] == 'T4-5' and dt[6] == 'T4-6'
+        if not tr:
+            yield 'empty-transformation-returns-the-tree', res is tree and set(dt) == {5, 6}
+            return
+
+        def leaf_goals(tag, old, new):
+            """old: the Surface leaf of the input, new: what came back for it"""
+            ok = isinstance(new, _Surface) and new.sub is None and abs(new.surface) > 200
+            yield f'{tag}:fresh-surface-number-without-facet-suffix', ok
+            if not ok:
+                return
+            k = abs(new.surface)
+            yield f'{tag}:same-sense', (new.surface > 0) == (old.surface > 0)
+            facets = before[abs(old.surface)] if old.sub is None else [before[abs(old.surface)][old.sub - 1]]
+            got = dm.dic.get(k)
+            yield f'{tag}:as-many-moved-facets', got is not None and len(got) == len(facets)
+            if got is None or len(got) != len(facets):
+                return
+            for i, ((g, gs), (f0, s0)) in enumerate(zip(got, facets)):
+                yield f'{tag}:facet{i}:is-the-referenced-facet-moved-by-the-transformation', (
+                    isinstance(g, _Tok) and g.made == ('transformation', tuple(tr), f0))
+                yield f'{tag}:facet{i}:same-side', gs == s0
+            coll = dt.get(k)
+            yield f'{tag}:t4-collection-is-the-join-of-the-conversions', (
+                isinstance(coll, _Coll) and coll.made[0] == 'join' and len(coll.made[1]) == len(facets) and all(
+                    c.made[0] == 'conversion' and c.made[2] is g and sd == gs
+                    for (c, sd), (g, gs) in zip(coll.made[1], got)))
+            if isinstance(coll, _Coll):
+                yield f'{tag}:only-the-comments-of-auxiliary-surfaces-change', all(
+                    isinstance(s_, _Tok) and (s_.idorigin == () if i == 0 else s_.idorigin == ('aux surf',))
+                    for i, (s_, _) in enumerate(coll.surfs))
+
+        if isinstance(tree, _Surface):
+            yield from leaf_goals('leaf', tree, res)
+            if first is None:
+                yield 'exactly-one-new-surface', set(dt) == {5, 6, abs(res.surface)} if isinstance(res, _Surface) else False
+        elif isinstance(tree, CellRef):
+            yield 'reference-to-the-moved-cell', (isinstance(res, CellRef) and calls.count('cell_transform') == 1 and
+                                                  res.cell == calls.result('cell_transform') and
+                                                  calls.args('cell_transform') == [31, tuple(tr)])
+            yield 'moved-through-the-cache', all(c['kw'].get('cache', True) for c in calls.calls if c['callee'] == 'cell_transform')
+        elif tree[0] == '^':
+            yield 'complement-node-left-alone', res is tree and set(dt) == {5, 6}
+        else:
+            yield 'same-operator-same-arity', isinstance(res, tuple) and len(res) == len(tree) and res[0] == tree[0]
+            if not (isinstance(res, tuple) and len(res) == len(tree)):
+                return
+            for i, (a, b) in enumerate(zip(tree[1:], res[1:])):
+                if isinstance(a, Opaque):
+                    yield f'operand{i}:is-the-sub-tree-moved-by-the-same-transformation', (
+                        isinstance(b, Opaque) and b.facts.get('transformed') is a and b.facts.get('by') == tuple(tr))
+                elif isinstance(a, CellRef):
+                    yield f'operand{i}:reference-to-the-moved-cell', isinstance(b, CellRef) and b.cell > 100
+                else:
+                    yield from leaf_goals(f'operand{i}', a, b)
 
 
 @contract(BU.by_universe, props=['C05'], name='ByUniverse.by_universe')
